@@ -150,7 +150,7 @@ def judge(engine, case, world, evaluate, syntax_error, orders):
                 return Outcome('violation', '{}:accepted:{}'.format(engine, case['why']),
                                '{} evaluated {!r} (shape {}) although it violates the documented rule {!r}'.format(engine, s, numpy.shape(arr), case['why']))
             if how != 'rejected':
-                return Outcome('violation', '{}:{}:{}'.format(engine, how, case['why']),
+                return Outcome('violation', '{}:{}:{}'.format(engine, how, 'unknown-function' if 'nofunc' in case['ops'] else case['why']),
                                '{} refused {!r} (rule {!r}) with {} instead of its ExpressionSyntaxError: {}'.format(engine, s, case['why'], how[7:], msg))
             checked += 1
             continue
@@ -211,7 +211,9 @@ class Replayer:
     def v1_applicable(self, case):
         ops = set(case['ops'])
         if ops & GEN_FUNCS:
-            return False
+            return False            # generated axes: v1 infers their length, another syntax
+        if '$' in case['t']:
+            return False            # `$` is the dirac of v1
         return True
 
     def v1(self, case):
